@@ -7,7 +7,17 @@ Totality and range of the parser model, foundation.
 
 `Safe wf x` : the builder outcome `x` is not a panic, and when it is a value the value satisfies `wf`.
 `Safe.bind`, `Safe.mapM` : the do-blocks and `Vec` collections of parser.rs.
-Digit lemmas: the value `str::parse` reads from the text of the lexical rules.
+`Good r build wf t` : `t` is a pair of rule `r` on which `build` is safe.
+Digit lemmas: the value `str::parse` reads from the text of the lexical rules (`NumTok`).
+Tactics (proof-producing only, the kernel checks the result): `conf_unfold`/`conf_unfoldk` unfold
+`Conf` on a grammar constant, `conf_destruct [lemmas]` takes the resulting `∃/∧/∨` apart and applies
+the per-rule lemmas `Conf g_X false k t → ∃ x, k = [x] ∧ …` of the sub-rules, `build_simp` reduces a
+builder on a concrete pair list, `safe_bind` is one `Safe.bind` step closed by a hypothesis.
+
+Method: for every grammar rule X (bottom-up) a lemma
+  `conf_X : Conf g_X false k t → ∃ x, k = [x] ∧ Good .X buildX wfX x`
+(SynTotalLex, SynTotalTime, SynTotalWeekday, SynTotalWide), assembled in SynTotal with
+`Peg.run_conf` (whatever `run` returns conforms to the grammar expression).
 -/
 namespace OH.Proofs.SynTotal
 open OH.Model OH.Model.Peg OH.Model.Parser OH.Generated.Grammar
